@@ -1,7 +1,7 @@
 (* C14 — State iterator yields the notification stream and then ends.
    Statements only; proofs in WorldSubs.v (an iterator is a subscription channel of capacity 1
    with the blocking policy whose consumer is the thread calling next()). *)
-From RS Require Import Base Channel ChannelProofs Pipeline Script World Hist WorldProofs WorldInv WorldQueue WorldStop WorldSubs WorldSids WorldForward.
+From RS Require Import Base Channel ChannelProofs Pipeline Script World Hist WorldProofs WorldInv WorldQueue WorldStop WorldSubs WorldMetrics WorldEffects WorldSids WorldForward WorldFwdFinal WorldFwdSince.
 
 Section C14.
 Context {State : Type}.
@@ -42,10 +42,27 @@ Theorem C14_every_notification : forall reducers mws progs w sid c pc, distinct_
   rev (fowed sid (w_hist w)) = rev (subrecvs sid (w_hist w)) ++ qacts c ++ pendingf sid pc.
 Proof. intros. eapply consumed_is_owed; eauto. Qed.
 
-(* C14_partial: the end of the stream after stop() (remaining pairs, then None) is decided by
-   engine L and the C14 monitor. Releasing an iterator early is the known finding F5 (see C13). *)
+(* "after the store is stopped it yields the remaining pairs" (WorldFwdFinal.v, WorldFwdSince.v;
+   distinct identifiers, every schedule): once the reducer has left its loop - in particular once
+   stop() has returned - at every later moment what next() has yielded so far followed by what is
+   still queued is exactly what had been forwarded by then: nothing is added, nothing is lost *)
+Theorem C14_remaining_pairs_after_stop : forall reducers mws progs w sched w' sid c',
+  length progs <= 100 -> distinct_regs progs -> reachable cfg reducers mws progs w -> releasing w ->
+  run cfg w sched = Some w' -> get_chan (w_chans w') sid = Some c' -> pol c' = Block ->
+  rev (subsends sid (w_hist w)) = rev (subrecvs sid (w_hist w')) ++ qacts c'.
+Proof.
+  intros reducers mws progs w sched w' sid c' L D R RL H G P.
+  rewrite <- (stream_is_final cfg reducers mws progs w sched w' sid L D R RL H).
+  apply (block_channel_lossless w' sid c'); [|exact G|exact P].
+  apply (reachable_subq cfg reducers mws progs). exact (reachable_run cfg _ _ _ _ _ _ R H).
+Qed.
+
+(* C14_partial: that None comes only after everything forwarded was yielded (the position of the
+   end marker) is decided by engine L and the C14 monitor. Releasing an iterator early is the
+   known finding F5 (see C13). *)
 End C14.
 
 Print Assumptions C14_stream.
 Print Assumptions C14_none_forever.
 Print Assumptions C14_every_notification.
+Print Assumptions C14_remaining_pairs_after_stop.
